@@ -339,6 +339,23 @@ def r9_selector_partition(ctx):
         ctx.vanished(f"selector obligations: only {len(sub.obs)}")
 
 
+def r10_transfer_wiring(ctx):
+    """Votes are conserved only if every elected candidate's own pile - and nothing else - goes through the transfer
+    function once, with that candidate's tally and the quota, and every other pile is carried over unchanged.
+    Decided by C02.R8 (transfer wiring of the two STV elect steps)."""
+    from rules import c02
+    sub = type(ctx)(ctx.prog, ctx.prop, ctx.tier)
+    c02.r8_transfer_wiring(sub)
+    n = 0
+    for o in sub.obs:
+        if "transfer" in o.construct or "carried over" in o.construct or "ballot" in o.construct:
+            o.rule = "C03.R10"
+            ctx.obs.append(o)
+            n += 1
+    if n < 2:
+        ctx.vanished(f"transfer wiring obligations: only {n}")
+
+
 RULES = [
     ("C03.R1", r1_winner_filtered, 5, "the winner is filtered out of every position; emptied positions dropped; siblings agree"),
     ("C03.R2", r2_order, 3, "the rebuilt ranking keeps the source order (order-preserving pipeline)"),
@@ -348,6 +365,7 @@ RULES = [
     ("C03.R6", r6_dropped, 2, "ballots leave the result only through `ranking and weight > 0`"),
     ("C03.R7", r7_surplus_factor, 3, "fractional rule: weight*(tally-threshold)/tally on winner-first ballots, full weight otherwise (formula normal form)"),
     ("C03.R9", r9_selector_partition, 4, "prerequisite: the selector's elected + remaining partition its input (no candidate's pile is lost)"),
+    ("C03.R10", r10_transfer_wiring, 2, "prerequisite: each elected candidate's own pile goes through the transfer function once (C02.R8)"),
     ("C03.R8", r8_cursor_discipline, 10, "every cursor-filled ballot list advances its cursor by exactly what was written, in the same block"),
 ]
 
